@@ -130,9 +130,16 @@ fn arb_policies(max: u32) -> Vec<Address> {
     v
 }
 /// an arbitrary authorization context (all three variants) and the rule type the code derives from it
-fn arb_context() -> (Context, ContextRuleType) {
-    let k: u8 = kani::any();
-    kani::assume(k < 3);
+/// `forced`: 0 Contract, 1 CreateContractHostFn, 2 CreateContractWithCtorHostFn, or ANY. `get_validated_context`
+/// has one call of `get_valid_context_rules` per variant: a symbolic variant triples the symbolic execution.
+fn arb_context(forced: u8) -> (Context, ContextRuleType) {
+    let k: u8 = if forced == ANY {
+        let k: u8 = kani::any();
+        kani::assume(k < 3);
+        k
+    } else {
+        forced
+    };
     if k == 0 {
         let c = Address::arb();
         (
@@ -265,17 +272,15 @@ fn mk_rules(sh: &[u8; NR], t1: &ContextRuleType, t2: &ContextRuleType, mk: u8, m
 }
 
 /// the whole symbolic scenario: ledger, authorization sets, registry, signatures, batch of contexts
-pub fn scenario(n_ctx: usize, max_sig: u32, max_pol: u32, max_supplied: u32) -> Scenario {
-    scenario_shaped(&[ANY; NR], n_ctx, max_sig, max_pol, max_supplied)
-}
 /// `shape[j]`: kind of rule slot j (0 unlisted, 1 own type, 2 Default) or ANY; concrete shapes give id lists of
 /// concrete length (much cheaper symbolic execution)
-pub fn scenario_shaped(shape: &[u8; NR], n_ctx: usize, max_sig: u32, max_pol: u32, max_supplied: u32) -> Scenario {
+/// `cv`: variant of each context (0 Contract, 1 CreateContractHostFn, 2 CreateContractWithCtorHostFn, ANY)
+pub fn scenario_shaped(shape: &[u8; NR], cv: [u8; 2], n_ctx: usize, max_sig: u32, max_pol: u32, max_supplied: u32) -> Scenario {
     setup_world();
     let w = world();
     let account = Address::from_id(w.contract);
-    let (c1, t1) = arb_context();
-    let (c2, t2x) = if n_ctx == 2 { arb_context() } else { (c1.clone(), t1.clone()) };
+    let (c1, t1) = arb_context(cv[0]);
+    let (c2, t2x) = if n_ctx == 2 { arb_context(cv[1]) } else { (c1.clone(), t1.clone()) };
     // the second context has the same rule type as the first, or a different one with its own list
     let same = n_ctx == 1 || model_eq(&t1, &t2x);
     let t2 = t2x;
@@ -727,11 +732,25 @@ const fn shape(a: u8, b: u8) -> [u8; NR] {
     [0, a, b]
 }
 
+/// context variants
+const CALL: u8 = 0;
+const CREATE: u8 = 1;
+const CREATE_CTOR: u8 = 2;
+
+fn pin_all_calls() {
+    let mut i = 0;
+    while i < NC {
+        let b: bool = kani::any();
+        model::preset_call::<bool>(i, false, &b);
+        i += 1;
+    }
+}
+
 /// phase 1 alone: `authenticate(payload, signatures)`
 #[kani::proof]
 #[kani::unwind(98)]
 pub fn authenticate_signatures() {
-    let sc = scenario_shaped(&shape(0, 0), 1, 1, 1, CAP as u32);
+    let sc = scenario_shaped(&shape(0, 0), [CALL, CALL], 1, 1, 1, CAP as u32);
     let e = Env::default();
     stellar_accounts::smart_account::authenticate(&e, &sc.payload, &signatures(&sc).0);
     let o = reference_phases(&sc, false, P_VERIFY);
@@ -748,13 +767,8 @@ pub fn authenticate_signatures() {
 #[kani::proof]
 #[kani::unwind(98)]
 pub fn authenticate_signatures_accepts() {
-    let sc = scenario_shaped(&shape(0, 0), 1, 1, 1, CAP as u32);
-    let mut i = 0;
-    while i < NC {
-        let b: bool = kani::any();
-        model::preset_call::<bool>(i, false, &b);
-        i += 1;
-    }
+    let sc = scenario_shaped(&shape(0, 0), [CALL, CALL], 1, 1, 1, CAP as u32);
+    pin_all_calls();
     let o = reference_phases(&sc, true, P_VERIFY);
     kani::assume(o.verified && o.delegated);
     world().must_succeed = true;
@@ -765,8 +779,8 @@ pub fn authenticate_signatures_accepts() {
 }
 
 /// phase 2 alone over a registry of the given shape: the returned (rule, context, signers) is the reference's choice
-fn select(sh: &[u8; NR], max_sig: u32, max_pol: u32) -> (Scenario, Outcome) {
-    let sc = scenario_shaped(sh, 1, max_sig, max_pol, CAP as u32);
+fn select(sh: &[u8; NR], cv: u8, max_sig: u32, max_pol: u32) -> (Scenario, Outcome) {
+    let sc = scenario_shaped(sh, [cv, cv], 1, max_sig, max_pol, CAP as u32);
     let e = Env::default();
     let (rule, cx, signers) = stellar_accounts::smart_account::get_validated_context(&e, &sc.ctx[0], &sc.keys);
     let o = reference_phases(&sc, false, P_SELECT);
@@ -790,14 +804,9 @@ fn select(sh: &[u8; NR], max_sig: u32, max_pol: u32) -> (Scenario, Outcome) {
     end_checks(DECLARED_1);
     (sc, o)
 }
-fn select_accepts(sh: &[u8; NR], max_sig: u32, max_pol: u32) {
-    let sc = scenario_shaped(sh, 1, max_sig, max_pol, CAP as u32);
-    let mut i = 0;
-    while i < NC {
-        let b: bool = kani::any();
-        model::preset_call::<bool>(i, false, &b);
-        i += 1;
-    }
+fn select_accepts(sh: &[u8; NR], cv: u8, max_sig: u32, max_pol: u32) {
+    let sc = scenario_shaped(sh, [cv, cv], 1, max_sig, max_pol, CAP as u32);
+    pin_all_calls();
     let o = reference_phases(&sc, true, P_SELECT);
     kani::assume(o.covered);
     kani::assume(world().seq <= u32::MAX - 40 * 17280);
@@ -815,94 +824,115 @@ fn select_accepts(sh: &[u8; NR], max_sig: u32, max_pol: u32) {
     prop!(same_rule, "C03.select.accepts_when_a_satisfied_rule_exists");
     witness!(o.fell_through[0], "accepted_after_an_earlier_candidate_failed");
 }
-/// both rules of the context's own type
+/// both rules of the context's own type (contract call)
 #[kani::proof]
 #[kani::unwind(98)]
 pub fn select_own_own() {
-    let (_sc, o) = select(&shape(1, 1), 2, 1);
+    let (_sc, o) = select(&shape(1, 1), CALL, 2, 1);
     witness!(o.chosen[0] == (NR - 2) as u32, "older_rule_chosen");
     witness!(o.chosen[0] == (NR - 1) as u32, "newer_rule_chosen");
 }
-/// both rules Default
+/// both rules Default (contract call)
 #[kani::proof]
 #[kani::unwind(98)]
 pub fn select_default_default() {
-    let (_sc, o) = select(&shape(2, 2), 2, 1);
+    let (_sc, o) = select(&shape(2, 2), CALL, 2, 1);
     witness!(o.chosen[0] == (NR - 2) as u32, "older_rule_chosen");
     witness!(o.chosen[0] == (NR - 1) as u32, "newer_rule_chosen");
 }
-/// an own-type rule and a NEWER Default rule: the own-type rule still comes first
+/// an own-type rule and a NEWER Default rule: the own-type rule still comes first (contract call)
 #[kani::proof]
 #[kani::unwind(98)]
 pub fn select_own_default() {
-    let (_sc, o) = select(&shape(1, 2), 2, 1);
+    let (_sc, o) = select(&shape(1, 2), CALL, 2, 1);
     witness!(o.chosen[0] == (NR - 2) as u32, "older_own_type_rule_beats_newer_default_rule");
     witness!(o.chosen[0] == (NR - 1) as u32, "default_rule_as_fallback");
 }
-/// a Default rule and a newer own-type rule
+/// a Default rule and a newer own-type rule (contract call)
 #[kani::proof]
 #[kani::unwind(98)]
 pub fn select_default_own() {
-    let (_sc, o) = select(&shape(2, 1), 2, 1);
+    let (_sc, o) = select(&shape(2, 1), CALL, 2, 1);
     witness!(o.chosen[0] == (NR - 2) as u32, "default_rule_as_fallback");
     witness!(o.chosen[0] == (NR - 1) as u32, "own_type_rule_chosen");
+}
+/// contract creation (CreateContractHostFn): own-type rule + newer Default rule
+#[kani::proof]
+#[kani::unwind(98)]
+pub fn select_create_own_default() {
+    let (_sc, o) = select(&shape(1, 2), CREATE, 2, 1);
+    witness!(o.chosen[0] == (NR - 2) as u32, "older_own_type_rule_beats_newer_default_rule");
+    witness!(o.chosen[0] == (NR - 1) as u32, "default_rule_as_fallback");
+}
+/// contract creation with constructor (CreateContractWithCtorHostFn): two own-type rules
+#[kani::proof]
+#[kani::unwind(98)]
+pub fn select_create_ctor_own_own() {
+    let (_sc, o) = select(&shape(1, 1), CREATE_CTOR, 2, 1);
+    witness!(o.chosen[0] == (NR - 2) as u32, "older_rule_chosen");
+    witness!(o.chosen[0] == (NR - 1) as u32, "newer_rule_chosen");
 }
 /// any shape (symbolic kinds), converse only (no trace comparison)
 #[kani::proof]
 #[kani::unwind(98)]
 pub fn select_any_accepts() {
-    select_accepts(&[ANY; NR], 2, 1);
+    select_accepts(&[ANY; NR], CALL, 2, 1);
+}
+#[kani::proof]
+#[kani::unwind(98)]
+pub fn select_create_any_accepts() {
+    select_accepts(&[ANY; NR], CREATE, 2, 1);
 }
 /// thorough: up to 2 policies per rule
 #[kani::proof]
 #[kani::unwind(98)]
 pub fn select_own_own_2pol() {
-    let _ = select(&shape(1, 1), 2, 2);
+    let _ = select(&shape(1, 1), CALL, 2, 2);
 }
 #[kani::proof]
 #[kani::unwind(98)]
 pub fn select_own_default_2pol() {
-    let _ = select(&shape(1, 2), 2, 2);
+    let _ = select(&shape(1, 2), CALL, 2, 2);
 }
 #[kani::proof]
 #[kani::unwind(98)]
 pub fn select_default_default_2pol() {
-    let _ = select(&shape(2, 2), 2, 2);
+    let _ = select(&shape(2, 2), CREATE_CTOR, 2, 2);
 }
 /// thorough, CAP = 3 profile: three listed rules
 #[cfg(feature = "cap3")]
 #[kani::proof]
 #[kani::unwind(98)]
 pub fn select_own_own_default() {
-    let _ = select(&[2, 1, 1], 3, 1);
+    let _ = select(&[2, 1, 1], CALL, 3, 1);
 }
 #[cfg(feature = "cap3")]
 #[kani::proof]
 #[kani::unwind(98)]
 pub fn select_own_default_default() {
-    let _ = select(&[2, 2, 1], 3, 1);
+    let _ = select(&[2, 2, 1], CALL, 3, 1);
 }
 
 /// the whole check through the example's `__check_auth`: one listed rule (Default) + one stored but unlisted rule
 #[kani::proof]
 #[kani::unwind(98)]
 pub fn check_auth_one_default_rule() {
-    let sc = scenario_shaped(&shape(0, 2), 1, 2, 2, 2);
+    let sc = scenario_shaped(&shape(0, 2), [CALL, CALL], 1, 2, 2, 2);
     run(&sc, true);
     let _ = soundness(&sc, DECLARED_1);
 }
-/// the whole check, library function: one listed rule of the context's own type
+/// the whole check, library function: one listed rule of the context's own type (contract creation)
 #[kani::proof]
 #[kani::unwind(98)]
 pub fn check_auth_one_own_rule() {
-    let sc = scenario_shaped(&shape(0, 1), 1, 2, 2, 2);
+    let sc = scenario_shaped(&shape(0, 1), [CREATE, CREATE], 1, 2, 2, 2);
     run(&sc, false);
     let _ = soundness(&sc, DECLARED_1);
 }
 #[kani::proof]
 #[kani::unwind(98)]
 pub fn check_auth_one_rule_accepts() {
-    let sc = scenario_shaped(&shape(0, ANY), 1, 2, 2, 2);
+    let sc = scenario_shaped(&shape(0, ANY), [CREATE_CTOR, CREATE_CTOR], 1, 2, 2, 2);
     let o = converse(&sc);
     witness!(sc.rules[NR - 1].kind == 2 && o.chosen[0] == (NR - 1) as u32, "accepted_by_default_rule");
     witness!(sc.rules[NR - 1].kind == 1 && o.chosen[0] == (NR - 1) as u32, "accepted_by_own_type_rule");
@@ -911,19 +941,28 @@ pub fn check_auth_one_rule_accepts() {
 #[kani::proof]
 #[kani::unwind(98)]
 pub fn check_auth_own_and_default_rule() {
-    let sc = scenario_shaped(&shape(2, 1), 1, 2, 1, 2);
+    let sc = scenario_shaped(&shape(2, 1), [CALL, CALL], 1, 2, 1, 2);
     run(&sc, false);
     let o = soundness(&sc, DECLARED_1);
     witness!(o.fell_through[0], "earlier_candidate_failed_first");
     witness!(o.skipped_expired[0], "expired_earlier_candidate_skipped");
 }
-/// thorough: a batch of 2 contexts (same or different rule types) over one Default rule
+/// thorough: a batch of 2 contract-call contexts (same or different contracts) over one Default rule
 #[kani::proof]
 #[kani::unwind(98)]
 pub fn check_auth_2ctx_one_default_rule() {
-    let sc = scenario_shaped(&shape(0, 2), 2, 2, 1, 2);
+    let sc = scenario_shaped(&shape(0, 2), [CALL, CALL], 2, 2, 1, 2);
     run(&sc, false);
     let _ = soundness(&sc, DECLARED_2);
     witness!(sc.ctx_kind[1] == 3, "contexts_of_different_types");
     witness!(sc.ctx_kind[1] == 1, "contexts_of_the_same_type");
+}
+/// thorough: a contract call and a contract creation in one batch, an own-type rule for the call + a Default rule
+#[kani::proof]
+#[kani::unwind(98)]
+pub fn check_auth_2ctx_mixed() {
+    let sc = scenario_shaped(&shape(1, 2), [CALL, CREATE], 2, 2, 1, 2);
+    run(&sc, false);
+    let _ = soundness(&sc, DECLARED_2);
+    witness!(true, "mixed_batch_accepted");
 }
